@@ -549,7 +549,9 @@ func (a *AddrManager) changePrivPassphrase(amBucket db.Bucket, oldPrivPass []byt
 	if err != nil {
 		return err
 	}
-	err = a.checkPassword(oldPrivPass)
+	// safelyCheckPassword: do not leave the derived master key of a locked keystore in
+	// memory when a later step of this function (or of the transaction) fails
+	err = a.safelyCheckPassword(oldPrivPass)
 	if err != nil {
 		return err
 	}
